@@ -270,6 +270,7 @@
 //! [AtomicBucket]: https://docs.rs/metrics-util/0.5.0/metrics_util/struct.AtomicBucket.html
 //! [Handle]: https://docs.rs/metrics-util/0.5.0/metrics_util/enum.Handle.html
 #![deny(missing_docs)]
+#![cfg_attr(metrics_verif, allow(missing_docs))]
 #![cfg_attr(docsrs, feature(doc_cfg), deny(rustdoc::broken_intra_doc_links))]
 
 pub mod atomics;
@@ -294,3 +295,8 @@ pub use self::metadata::*;
 
 mod recorder;
 pub use self::recorder::*;
+
+#[cfg(metrics_verif)]
+#[doc(hidden)]
+#[path = "verif.rs"]
+pub mod __verif;
